@@ -33,10 +33,11 @@ fn payloads() -> Vec<(&'static str, String)> {
         ("non-ascii", "\u{e9}\u{20ac}\u{4e2d}".into()),
         ("raw-string-start", "r#\"".into()),
         ("leading-digit", "3dModel".into()),
+        ("bidi-controls", "abc\u{202e}def\u{2066}ghi\u{2069}\u{202c}".into()),
     ]
 }
 
-const SINKS: [&str; 10] = ["enumeration-value", "facet-value", "documentation", "namespace-uri", "port-address", "soap-action", "xml-name-element", "xml-name-attribute", "xml-name-type", "xml-name-operation"];
+const SINKS: [&str; 11] = ["enumeration-value", "facet-value", "documentation", "namespace-uri", "port-address", "soap-action", "soap-action-urn", "xml-name-element", "xml-name-attribute", "xml-name-type", "xml-name-operation"];
 
 /// names that are legal XML NCNames but stress identifier mapping
 fn odd_names() -> Vec<&'static str> {
@@ -155,6 +156,12 @@ fn state_for_payload(payload: &str, sink: &str) -> Option<SchemaSet> {
             Some(s)
         }
         "port-address" => Some(wsdl_with(&[OpSpec::simple("GetThing")], "ThingService", &format!("http://127.0.0.1:9/p/{payload}?q={payload}#f"))),
+        "soap-action-urn" => {
+            // an opaque URI: nothing in it is percent-encoded or normalised by a URL parser
+            let mut s = wsdl_with(&[OpSpec::simple("GetThing")], "ThingService", "http://127.0.0.1:9/thing");
+            s.wsdl.as_mut().unwrap().b_ops[0].action = Some(format!("urn:zv:act:{payload}"));
+            Some(s)
+        }
         "soap-action" => {
             let mut s = wsdl_with(&[OpSpec::simple("GetThing")], "ThingService", "http://127.0.0.1:9/thing");
             s.wsdl.as_mut().unwrap().b_ops[0].action = Some(format!("http://zv.example/act/{payload}?x={payload}"));
@@ -359,7 +366,7 @@ pub fn check(tier: &str) -> i32 {
     rep.set("compiled", json!(batch.len()));
     rep.set("compiled_without_error", json!(compiled_ok));
     rep.set("exhaustive", json!(true));
-    rep.set("bound", json!(format!("complete product: {} keywords (strict, reserved, weak; edition 2024) x 8 naming positions (element, attribute, complex type, simple type, global element, operation, message part, service); {} unusual NCNames x the same positions; {} payload strings (quote, backslash, newline, carriage return, braces, comment delimiters, three injection payloads carrying a marker function, non-ASCII, raw-string opener) x 10 sinks (enumeration value, facet value, documentation, namespace URI, port address, soapAction, and the name of an element, an attribute, a complex type, an operation); 5 valid XSD spellings of a numeric facet value (+5, 005, blanks) whose enforcement is checked at run time", all_keywords().len(), odd_names().len(), payloads().len())));
+    rep.set("bound", json!(format!("complete product: {} keywords (strict, reserved, weak; edition 2024) x 8 naming positions (element, attribute, complex type, simple type, global element, operation, message part, service); {} unusual NCNames x the same positions; {} payload strings (quote, backslash, newline, carriage return, braces, comment delimiters, three injection payloads carrying a marker function, non-ASCII, raw-string opener) x 11 sinks (enumeration value, facet value, documentation, namespace URI, port address, soapAction in http and in urn form, and the name of an element, an attribute, a complex type, an operation); 5 valid XSD spellings of a numeric facet value (+5, 005, blanks) whose enforcement is checked at run time", all_keywords().len(), odd_names().len(), payloads().len())));
     rep.assume("an input that the generator rejects produces no output, so nothing can be injected; rejection is a violation only for keyword / NCName names (in-subset), not for payload strings (e.g. a non-numeric facet value is not a valid schema)");
     rep.assume("a payload used as a NAME is not an NCName; the generator may refuse it (no output, no verdict), but what it accepts must appear as data only");
     rep.finish()
